@@ -2,7 +2,7 @@
 # tools/trymutant.sh <patch.diff> <ID> [<ID>...]
 # Applies the patch to a scratch worktree of /repo's HEAD (outside /repo and /verif), runs the quick checks of the
 # given properties against it (VERIF_REPO=<worktree>), and restores the worktree. Evidence of /verif is preserved.
-PATCH="$1"; shift
+PATCH="$(cd "$(dirname "$1")" && pwd)/$(basename "$1")"; shift
 TREE="${MUTRUN:-/tmp/mutrun/tree-$$}"
 HERE="$(cd "$(dirname "$0")/.." && pwd)"
 mkdir -p /tmp/mutrun; git -C /repo worktree prune
